@@ -399,6 +399,12 @@ def run(ctx):
            "footer_size is compared with the file size before it sizes the footer buffer",
            bool(g) and bool(m) and rf.cfg.node_dominates(_first_cfg(rf, g[0]), m[0]))
 
+    # ---- termination of the level / index decoder's driving loops
+    ctx.clause("C04.7 a refill step of the streaming RLE decoder that gives up records an error or has nothing owed (read loops terminate)")
+    from ..rules import progress
+    nfalse, nref = progress.check(ctx, "src/encoding/rle.c", "carquet_rle_decoder")
+    ctx.floor("C04 refill functions of the RLE decoder", nref, 2)
+
     # ---- (2) recursion, (3) ownership
     recursion.check(ctx, "R8", "recursion")
     rfns = P.funcs_under("src/reader/") + P.funcs_in("src/metadata/schema.c", PT, "src/thrift/thrift_decode.c", "src/core/arena.c")
